@@ -35,6 +35,21 @@ func init() {
 		})
 		return c.Report()
 	}
+	replayers["C07/fromtimein"] = func(v rt.Violation) string {
+		c := rt.ReplayCtx("C07")
+		c.Serial("replay", func(w *rt.W) {
+			if loc, err := time.LoadLocation(rt.ArgString(v, "zone")); err == nil {
+				t := time.Unix(rt.ArgInt(v, "unix_sec"), 0).In(loc)
+				for k := -96; k <= 0; k++ { // the two days before, in half-hour steps, then the instant itself
+					c07FromTimeIn(w, t.Add(time.Duration(k)*30*time.Minute))
+				}
+				for k := 96; k >= 0; k-- { // and coming from the two days after
+					c07FromTimeIn(w, t.Add(time.Duration(k)*30*time.Minute))
+				}
+			}
+		})
+		return c.Report()
+	}
 	replayers["C07/fromtime"] = func(v rt.Violation) string {
 		c := rt.ReplayCtx("C07")
 		c.Serial("replay", func(w *rt.W) { c07FromTime(w, rt.ArgInt(v, "unix_sec"), int(rt.ArgInt(v, "offset_sec"))) })
@@ -110,6 +125,24 @@ func c07AddDuration(w *rt.W, oa int64, dur time.Duration) {
 	got := ordDate(oa).AddDuration(dur)
 	w.Eval(1)
 	c07CheckDate(w, "addduration", "addduration", rt.Args("a_ordinal", oa, "a", ordText(oa), "duration_ns", int64(dur), "duration", dur.String()), got, wy, wm, wd)
+}
+
+// c07FromTimeIn checks the conversion of one instant shown in a real (tz database) location: the date is the one
+// the instant's own zone offset gives, whatever was converted before with the same location.
+func c07FromTimeIn(w *rt.W, t time.Time) {
+	_, off := t.Zone()
+	wy, wm, wd := ref.Civil(floorDiv64(t.Unix()+int64(off), 86400))
+	args := rt.Args("unix_sec", t.Unix(), "offset_sec", off, "zone", t.Location().String(), "time", t.Format(time.RFC3339))
+	c07CheckDate(w, "fromtime-func-in-location", "fromtimein", args, date.FromTime(t), wy, wm, wd)
+	var d date.Date
+	d.FromTime(t)
+	c07CheckDate(w, "fromtime-method-in-location", "fromtimein", args, d, wy, wm, wd)
+	s := date.New(1234, 5, 6)
+	if err := s.Scan(t); err != nil {
+		w.Fail("scan-error", "fromtimein", args, err.Error(), "nil", "Scan(time.Time) must succeed")
+	}
+	c07CheckDate(w, "scan-in-location", "fromtimein", args, s, wy, wm, wd)
+	w.Eval(3)
 }
 
 // c07FromTime checks conversion of the instant unixSec shown in a fixed zone.
@@ -455,6 +488,71 @@ func runC07(c *rt.Ctx) {
 			}
 		}
 	})
+	// real locations, walked in half-hour steps across their daylight-saving transitions (23- and 25-hour days, days
+	// that start at 01:00, skipped and repeated calendar days), the location value the same throughout - also
+	// backwards, and jumping between two locations
+	{
+		locs := hostileZones()
+		windows := [][2]time.Time{
+			{time.Date(2024, 3, 7, 0, 0, 0, 0, time.UTC), time.Date(2024, 4, 9, 0, 0, 0, 0, time.UTC)},
+			{time.Date(2024, 9, 3, 0, 0, 0, 0, time.UTC), time.Date(2024, 11, 6, 0, 0, 0, 0, time.UTC)},
+			{time.Date(2011, 12, 27, 0, 0, 0, 0, time.UTC), time.Date(2012, 1, 3, 0, 0, 0, 0, time.UTC)},
+			{time.Date(1994, 12, 28, 0, 0, 0, 0, time.UTC), time.Date(1995, 1, 4, 0, 0, 0, 0, time.UTC)},
+			{time.Date(2018, 10, 30, 0, 0, 0, 0, time.UTC), time.Date(2018, 11, 8, 0, 0, 0, 0, time.UTC)},
+		}
+		// single-threaded first (nothing else converts in between: the walk itself is the only history), then on all cores
+		c.Serial("daylight-saving-walk-alone", func(w *rt.W) {
+			for _, loc := range locs {
+				for _, win := range windows {
+					for t := win[0]; t.Before(win[1]); t = t.Add(30 * time.Minute) {
+						c07FromTimeIn(w, t.In(loc))
+					}
+					for t := win[1]; t.After(win[0]); t = t.Add(-30 * time.Minute) {
+						tt := t.In(loc)
+						if got := date.FromTime(tt); true {
+							_, off := tt.Zone()
+							wy, wm, wd := ref.Civil(floorDiv64(tt.Unix()+int64(off), 86400))
+							c07CheckDate(w, "fromtime-func-in-location", "fromtimein", rt.Args("unix_sec", tt.Unix(), "offset_sec", off, "zone", loc.String(), "time", tt.Format(time.RFC3339), "direction", "backwards"), got, wy, wm, wd)
+						}
+					}
+				}
+				w.ClassN("location-walked-alone", 1)
+			}
+		})
+		c.Require("location-walked-alone", int64(len(locs)))
+		c.Parallel("daylight-saving-walk", 0, func(w *rt.W) {
+			for li := w.Shard; li < len(locs); li += w.NShards {
+				loc := locs[li]
+				other := locs[(li+5)%len(locs)]
+				for _, win := range windows {
+					n := 0
+					for t := win[0]; t.Before(win[1]); t = t.Add(30 * time.Minute) {
+						c07FromTimeIn(w, t.In(loc))
+						if n%7 == 0 {
+							c07FromTimeIn(w, t.In(other))
+							c07FromTimeIn(w, t.Add(-1).In(loc))
+						}
+						n++
+					}
+					for t := win[1]; t.After(win[0]); t = t.Add(-47 * time.Minute) {
+						c07FromTimeIn(w, t.In(loc))
+					}
+					// exact local wall-clock readings on the hour around midnight, every day of the window
+					for day := win[0]; day.Before(win[1]); day = day.Add(24 * time.Hour) {
+						y, m, d := day.Date()
+						for _, hh := range []int{0, 1, 2, 3, 22, 23} {
+							c07FromTimeIn(w, time.Date(y, m, d, hh, 0, 0, 0, loc))
+							c07FromTimeIn(w, time.Date(y, m, d, hh, 59, 59, 999999999, loc))
+						}
+					}
+				}
+				w.ClassN("location-walked-across-transitions", 1)
+				w.NT(1)
+			}
+		})
+		c.Require("location-walked-across-transitions", int64(len(locs)))
+	}
+
 	// the process-local zone is configuration the arithmetic must not depend on
 	zf, zl := ref.Ordinal(1990, 1, 1), ref.Ordinal(2030, 12, 31)
 	for _, loc := range hostileZones() {
